@@ -208,6 +208,13 @@ def k16_connect_cycles(ctx) -> None:
         ctx.violation("K16", f, "connect_cycles must search the table returned by get_one_way_vertices()", construct=f"{DB}.connect_cycles table")
 
 
+def _t(text: str):
+    try:
+        return ast.parse(text, mode="eval").body
+    except SyntaxError:
+        return ast.Constant(value=None)
+
+
 def k17_find_path(ctx) -> None:
     P = ctx.P
     m = P.need_method(DB, "find_path", own=True)
@@ -252,4 +259,17 @@ def k17_find_path(ctx) -> None:
         else:
             ctx.violation("K17", r, f"find_path returns `{norm(v)}`, which is neither the path found by the search nor an edge recorded from `{a}` to `{b}`: the explanation "
                           "is replayed rule by rule, and a step that was never recorded in that direction has no rule")
+    # a vertex is marked as done when it has been expanded, not when it is first seen: the
+    # loop skips popped paths whose end is marked, so marking at enqueue time expands nothing
+    skips_popped = [n for n in walk_local(f) if isinstance(n, ast.Continue) and any(p and PT.match(PT.compile_pattern("_M_e in _M_vis"), _t(t)) is not None for t, p in C.guard_texts(f, n))]
+    adds = [c for c in walk_local(f) if isinstance(c, ast.Call) and isinstance(c.func, ast.Attribute) and c.func.attr == "add" and isinstance(c.func.value, ast.Name)]
+    if ext and adds:
+        exp_var = norm(ext[0].target)
+        for c in adds:
+            inside = any(c is x for x in ast.walk(ext[0]))
+            if inside and c.args and norm(c.args[0]) == exp_var and skips_popped:
+                ctx.violation("K17", c, f"`{norm(c)}` marks a vertex as visited when it is enqueued, and popped paths ending at a visited vertex are skipped: nothing beyond the "
+                              "first edges is ever expanded, so classes two steps apart are reported unreachable (the loop ends with the last path popped, which is returned)")
+            elif not inside:
+                ctx.ok("K17", "a vertex is marked visited after its edges have been followed")
 
